@@ -651,6 +651,14 @@ def proj_sub(obj, idx):
         for k, v in obj[1]:
             if k == idx:
                 return v
+    if obj[0] == "dict" and len(obj[1]) == 2 and {k for k, _ in obj[1]} == {TRUE, FALSE}:
+        # a two-entry table keyed by a flag: table[bool(flag)] is the conditional on the flag
+        vt = next(v for k, v in obj[1] if k == TRUE)
+        vf = next(v for k, v in obj[1] if k == FALSE)
+        c_ = idx
+        if c_[0] == "call" and c_[1] == ("ext", "builtins.bool") and len(c_[2]) == 1 and not c_[3]:
+            c_ = c_[2][0]
+            return mk_ite(c_, vt, vf)
     return ("sub", obj, idx)
 
 
@@ -959,6 +967,13 @@ class BoundMethod:
 
     def __init__(self, owner, fn, cls, self_term, name):
         self.owner, self.fn, self.cls, self.self_term, self.name = owner, fn, cls, self_term, name
+
+
+class CondCallable:
+    """`f = g if c else h` (or the two branches of an if statement binding a callable): f(args) is g(args) if c else h(args)."""
+
+    def __init__(self, test, a, b):
+        self.test, self.a, self.b = test, a, b
 
 
 class Partial:
@@ -1647,6 +1662,10 @@ class Interp:
                 env.set(n, v1)
             elif isinstance(v1, tuple) and isinstance(v2, tuple):
                 env.set(n, mk_ite(test, v1, v2))
+            elif not isinstance(v1, tuple) and not isinstance(v2, tuple):
+                # two callables (closures, bound methods, partials) chosen by a test: a callable that, when called,
+                # is the conditional of the two results
+                env.set(n, CondCallable(test, v1, v2))
             else:
                 env.set(n, ("unknown", f"merge of closures for {n}"))
 
@@ -1770,6 +1789,13 @@ class Interp:
             if isinstance(cur, tuple):
                 if cur[0] == "list" and i0 == C(0):
                     env.set(name, ("list", (v,) + cur[1]))
+                elif cur[0] == "call" and cur[1] in (("ext", "builtins.list"),) and len(cur[2]) == 1 and not cur[3] or (
+                        cur[0] in ("attr", "sub") and not (is_const(i0) and isinstance(i0[1], int) and i0[1] < 0)):
+                    # inserting into a copy of a sequence at a (non-negative, already normalised) position:
+                    # [*xs[:i], v, *xs[i:]]
+                    base_ = cur[2][0] if cur[0] == "call" else cur
+                    env.set(name, ("list", (("star", proj_sub(base_, ("slice", NONE, i0, NONE))), v,
+                                            ("star", proj_sub(base_, ("slice", i0, NONE, NONE))))))
                 else:
                     env.set(name, ("call", ("ext", "list.insert"), (cur, i0, v), ()))
                 return
@@ -2100,7 +2126,11 @@ class Interp:
             # a module-level alias of a callable:  _f = partial(g, k=v)  /  _f = mod.g  /  _f = g
             node = m.assigns[name]
             key_ = (m.name, name)
-            if isinstance(node, (ast.Name, ast.Attribute)) or (
+            is_table = isinstance(node, (ast.Dict, ast.Tuple, ast.List)) and name.startswith("_") and all(
+                isinstance(x, (ast.Constant, ast.Name, ast.Attribute, ast.Tuple, ast.List, ast.UnaryOp, ast.Dict, ast.Load,
+                               ast.USub, ast.expr_context))
+                for x in ast.walk(node))
+            if is_table or isinstance(node, (ast.Name, ast.Attribute)) or (
                     isinstance(node, ast.Call) and ast.unparse(node.func) in ("partial", "functools.partial")):
                 if key_ not in self._alias_stack:
                     self._alias_stack.append(key_)
@@ -2466,6 +2496,10 @@ class Interp:
         return self.call(f, args, kwargs, ctx, node)
 
     def call(self, f, args, kwargs, ctx, node=None):
+        if isinstance(f, CondCallable):
+            ra = self.as_term(self.call(f.a, list(args), dict(kwargs), ctx, node))
+            rb = self.as_term(self.call(f.b, list(args), dict(kwargs), ctx, node))
+            return mk_ite(f.test, ra, rb)
         if isinstance(f, tuple) and f and f[0] == "call" and f[1] == ("ext", "functools.partial") and f[2]:
             kw = dict(f[3])
             kw.update(kwargs)
